@@ -41,15 +41,16 @@ type vfCrash struct{}
 
 // vfPlan says where the current store call stops.
 type vfPlan struct {
-	kind    string // none | w | idx | cw | c2
+	kind    string // none | w | idx | cw | c2 | cdb
 	sn      int
 	fired   bool
 	durable int
 	updates int
+	commits int // database transactions COMMITTED by the current call
 }
 
 func (p *vfPlan) arm(kind string, sn int) {
-	p.kind, p.sn, p.fired, p.durable, p.updates = kind, sn, false, 0, 0
+	p.kind, p.sn, p.fired, p.durable, p.updates, p.commits = kind, sn, false, 0, 0, 0
 }
 
 func (p *vfPlan) step() {
@@ -103,12 +104,26 @@ func (d *vfDB) Update(f func(tx walletdb.ReadWriteTx) error, reset func()) error
 		// sn = how many database updates of this call succeed first
 		if d.p.updates < d.p.sn {
 			d.p.updates++
-			return d.DB.Update(f, reset)
+			return d.commit(f, reset)
 		}
 		d.p.fired = true
 		return errVfInjected
 	}
-	return d.DB.Update(f, reset)
+	return d.commit(f, reset)
+}
+
+// commit runs the transaction for real and counts it; with the plan "cdb sn"
+// the process dies right after the sn-th commit of the call became durable.
+func (d *vfDB) commit(f func(tx walletdb.ReadWriteTx) error, reset func()) error {
+	err := d.DB.Update(f, reset)
+	if err == nil {
+		d.p.commits++
+		if d.p.kind == "cdb" && !d.p.fired && d.p.commits == d.p.sn {
+			d.p.fired = true
+			panic(vfCrash{})
+		}
+	}
+	return err
 }
 
 type vfAct struct {
@@ -118,6 +133,8 @@ type vfAct struct {
 	Stop  string `json:"stop"`
 	Sn    int    `json:"sn"`
 	Res   string `json:"res"`
+	Nc    int    `json:"nc"` // database commits made by the call
+	Sc    int    `json:"sc"` // batch-size class: real headers per header id (0 = 1)
 }
 
 type vfBObs struct {
@@ -180,11 +197,8 @@ type vfEnv struct {
 	up    bool
 	assertNext int
 	n, h  int
-	hdr   []*wire.BlockHeader
-	hash  []chainhash.Hash
-	fh    []chainhash.Hash
-	byBH  map[chainhash.Hash]int
-	byFH  map[chainhash.Hash]int
+	s     int // real headers per header id >= 1 (spec constant Scale)
+	u     *vfUni
 	absB  []int
 	absF  []int
 }
@@ -244,14 +258,14 @@ func (e *vfEnv) open() error {
 	case 1:
 		// a header state assertion that matches the stored genesis filter
 		// header: start-up must behave exactly as without it
-		assertion = &FilterHeader{Height: 0, FilterHash: e.fh[0]}
+		assertion = &FilterHeader{Height: 0, FilterHash: e.u.fh[0][0]}
 	case 2:
 		// another filter header at the caller's filter tip height: the
 		// filter store is reset
-		assertion = &FilterHeader{Height: uint32(len(e.absF) - 1), FilterHash: sha256.Sum256([]byte("not stored"))}
+		assertion = &FilterHeader{Height: uint32(e.realLen(len(e.absF)) - 1), FilterHash: sha256.Sum256([]byte("not stored"))}
 	case 3:
 		// a height the store does not have
-		assertion = &FilterHeader{Height: uint32(len(e.absF)), FilterHash: sha256.Sum256([]byte("not stored"))}
+		assertion = &FilterHeader{Height: uint32(e.realLen(len(e.absF))), FilterHash: sha256.Sum256([]byte("not stored"))}
 	}
 	e.assertNext = 0
 	f, err := NewFilterHeaderStore(e.dir, pdb, RegularFilter, &chaincfg.SimNetParams, assertion)
@@ -260,8 +274,8 @@ func (e *vfEnv) open() error {
 		return fmt.Errorf("filter store: %w", err)
 	}
 	e.f = f.(*filterHeaderStore)
-	e.b.file = &vfFile{File: e.b.file, p: e.plan, half: 40}
-	e.f.file = &vfFile{File: e.f.file, p: e.plan, half: 16}
+	e.b.file = &vfFile{File: e.b.file, p: e.plan, half: 40 * e.s}
+	e.f.file = &vfFile{File: e.f.file, p: e.plan, half: 16 * e.s}
 	e.up = true
 	return nil
 }
@@ -290,11 +304,12 @@ var vfKeyPrefixes = [][2]byte{{0xff, 0xff}, {0x00, 0x00}, {0x00, 0xff}, {0xff, 0
 
 var vfNonceCache sync.Map
 
-// vfGrindPrefix sets the nonce of header id so that its hash starts with the
-// id's key prefix class.
-func vfGrindPrefix(id int, h *wire.BlockHeader) {
+// vfGrindPrefix sets the nonce of the first header of id so that its hash
+// starts with the id's key prefix class.
+func vfGrindPrefix(scale, id int, h *wire.BlockHeader) {
 	want := vfKeyPrefixes[(id-1)%len(vfKeyPrefixes)]
-	if n, ok := vfNonceCache.Load(id); ok {
+	key := [2]int{scale, id}
+	if n, ok := vfNonceCache.Load(key); ok {
 		h.Nonce = n.(uint32)
 		return
 	}
@@ -302,49 +317,130 @@ func vfGrindPrefix(id int, h *wire.BlockHeader) {
 		h.Nonce = n
 		hash := h.BlockHash()
 		if hash[0] == want[0] && hash[1] == want[1] {
-			vfNonceCache.Store(id, n)
+			vfNonceCache.Store(key, n)
 			return
 		}
 	}
 }
 
-func (e *vfEnv) mkIDs() {
-	e.hdr = make([]*wire.BlockHeader, e.n)
-	e.hash = make([]chainhash.Hash, e.n)
-	e.fh = make([]chainhash.Hash, e.n)
-	e.byBH = map[chainhash.Hash]int{}
-	e.byFH = map[chainhash.Hash]int{}
-	for i := 0; i < e.n; i++ {
-		if i == 0 {
-			e.hdr[0] = &chaincfg.SimNetParams.GenesisBlock.Header
-		} else {
-			var buf [4]byte
-			binary.BigEndian.PutUint32(buf[:], uint32(i))
-			e.hdr[i] = &wire.BlockHeader{
-				Version:    1,
-				PrevBlock:  e.hdr[i-1].BlockHash(), // id i is built on id i-1 (CheckConnectivity)
-				MerkleRoot: sha256.Sum256(append([]byte("mr"), buf[:]...)),
-				Timestamp:  time.Unix(1600000000+int64(i)*600, 0),
-				Bits:       0x207fffff,
-				Nonce:      uint32(i),
-			}
-			vfGrindPrefix(i, e.hdr[i])
-			e.fh[i] = sha256.Sum256(append([]byte("fh"), buf[:]...))
-		}
-		e.hash[i] = e.hdr[i].BlockHash()
-		e.byBH[e.hash[i]] = i
+// vfUni is the universe of headers: header id 0 is the genesis header; every
+// id i >= 1 stands for a RUN of s consecutive real headers (spec constant
+// Scale; s = 1: one header).  The first header of run i is built on the last
+// one of run i-1.  headerfs does not validate proof of work, so the members of
+// a run need no mining (only the first one is ground into its key prefix
+// class).  Universes are built once and shared read-only by all paths.
+type vfUni struct {
+	n, s int
+	hdr  [][]*wire.BlockHeader
+	hash [][]chainhash.Hash
+	fh   [][]chainhash.Hash
+	byBH map[chainhash.Hash][2]int // block hash -> (id, member)
+	byFH map[chainhash.Hash][2]int // filter header -> (id, member)
+}
+
+var (
+	vfUniMu sync.Mutex
+	vfUnis  = map[[2]int]*vfUni{}
+)
+
+func vfUniverse(n, s int) *vfUni {
+	vfUniMu.Lock()
+	defer vfUniMu.Unlock()
+	if u, ok := vfUnis[[2]int{n, s}]; ok {
+		return u
 	}
+	u := &vfUni{n: n, s: s, hdr: make([][]*wire.BlockHeader, n), hash: make([][]chainhash.Hash, n),
+		fh: make([][]chainhash.Hash, n), byBH: map[chainhash.Hash][2]int{}, byFH: map[chainhash.Hash][2]int{}}
+	u.hdr[0] = []*wire.BlockHeader{&chaincfg.SimNetParams.GenesisBlock.Header}
+	u.hash[0] = []chainhash.Hash{u.hdr[0][0].BlockHash()}
 	gf, err := builder.BuildBasicFilter(chaincfg.SimNetParams.GenesisBlock, nil)
 	if err != nil {
 		panic(err)
 	}
-	e.fh[0], err = builder.MakeHeaderForFilter(gf, chaincfg.SimNetParams.GenesisBlock.Header.PrevBlock)
+	gfh, err := builder.MakeHeaderForFilter(gf, chaincfg.SimNetParams.GenesisBlock.Header.PrevBlock)
 	if err != nil {
 		panic(err)
 	}
-	for i := range e.fh {
-		e.byFH[e.fh[i]] = i
+	u.fh[0] = []chainhash.Hash{gfh}
+	prev := u.hash[0][0]
+	for i := 1; i < n; i++ {
+		u.hdr[i] = make([]*wire.BlockHeader, s)
+		u.hash[i] = make([]chainhash.Hash, s)
+		u.fh[i] = make([]chainhash.Hash, s)
+		for j := 0; j < s; j++ {
+			var buf [4]byte
+			binary.BigEndian.PutUint32(buf[:], uint32(i))
+			seed := buf[:]
+			if j > 0 {
+				var jb [4]byte
+				binary.BigEndian.PutUint32(jb[:], uint32(j))
+				seed = append(append([]byte(nil), buf[:]...), jb[:]...)
+			}
+			h := &wire.BlockHeader{
+				Version:    1,
+				PrevBlock:  prev, // built on the previous header (CheckConnectivity)
+				MerkleRoot: sha256.Sum256(append([]byte("mr"), seed...)),
+				Timestamp:  time.Unix(1600000000+int64((i-1)*s+j+1)*600, 0),
+				Bits:       0x207fffff,
+				Nonce:      uint32(i + j),
+			}
+			if j == 0 {
+				vfGrindPrefix(s, i, h)
+			}
+			u.hdr[i][j] = h
+			u.hash[i][j] = h.BlockHash()
+			u.fh[i][j] = sha256.Sum256(append([]byte("fh"), seed...))
+			prev = u.hash[i][j]
+		}
 	}
+	for i := range u.hash {
+		for j := range u.hash[i] {
+			u.byBH[u.hash[i][j]] = [2]int{i, j}
+			u.byFH[u.fh[i][j]] = [2]int{i, j}
+		}
+	}
+	vfUnis[[2]int{n, s}] = u
+	return u
+}
+
+// sz is the number of real headers header id stands for.
+func (e *vfEnv) sz(id int) int {
+	if id == 0 {
+		return 1
+	}
+	return e.s
+}
+
+// runLen is the number of real heights model height m stands for.
+func (e *vfEnv) runLen(m int) int {
+	if m == 0 {
+		return 1
+	}
+	return e.s
+}
+
+// realH is the real height of member j of the run stored at model height m.
+func (e *vfEnv) realH(m, j int) int {
+	if m == 0 {
+		return 0
+	}
+	return (m-1)*e.s + 1 + j
+}
+
+// posOf is the model height and the position within its run of a real height.
+func (e *vfEnv) posOf(r int) (int, int) {
+	if r <= 0 {
+		return 0, 0
+	}
+	return (r-1)/e.s + 1, (r - 1) % e.s
+}
+
+// realLen is the number of real entries of a list of modelLen ids.
+func (e *vfEnv) realLen(modelLen int) int {
+	if modelLen <= 0 {
+		return 0
+	}
+	return 1 + (modelLen-1)*e.s
 }
 
 // toLegacyLayout rewrites the index the way a version before the hash-prefix
@@ -352,40 +448,89 @@ func (e *vfEnv) mkIDs() {
 func (e *vfEnv) toLegacyLayout() error {
 	return walletdb.Update(e.db, func(tx walletdb.ReadWriteTx) error {
 		root := tx.ReadWriteBucket(indexBucket)
-		for i := range e.hash {
-			h := e.hash[i]
-			sub := root.NestedReadWriteBucket(h[0:numSubBucketBytes])
-			if sub == nil {
-				continue
-			}
-			v := sub.Get(h[:])
-			if v == nil {
-				continue
-			}
-			hv := append([]byte(nil), v...)
-			if err := sub.Delete(h[:]); err != nil {
-				return err
-			}
-			if err := root.Put(h[:], hv); err != nil {
-				return err
+		for i := range e.u.hash {
+			for j := range e.u.hash[i] {
+				h := e.u.hash[i][j]
+				sub := root.NestedReadWriteBucket(h[0:numSubBucketBytes])
+				if sub == nil {
+					continue
+				}
+				v := sub.Get(h[:])
+				if v == nil {
+					continue
+				}
+				hv := append([]byte(nil), v...)
+				if err := sub.Delete(h[:]); err != nil {
+					return err
+				}
+				if err := root.Put(h[:], hv); err != nil {
+					return err
+				}
 			}
 		}
 		return nil
 	})
 }
 
-func (e *vfEnv) idOfHeader(h *wire.BlockHeader) int {
-	if id, ok := e.byBH[h.BlockHash()]; ok {
-		return id
-	}
-	return vG
+// vfAns is what one member of a run answered: nothing (not found / error), or
+// a value (header id or model height) and the position within its run.
+type vfAns struct {
+	found bool
+	v, j  int
 }
 
-func (e *vfEnv) idOfFH(h *chainhash.Hash) int {
-	if id, ok := e.byFH[*h]; ok {
-		return id
+func (e *vfEnv) ansB(h *wire.BlockHeader) vfAns {
+	if x, ok := e.u.byBH[h.BlockHash()]; ok {
+		return vfAns{true, x[0], x[1]}
 	}
-	return vG
+	return vfAns{true, vG, 0}
+}
+
+func (e *vfEnv) ansF(h *chainhash.Hash) vfAns {
+	if x, ok := e.u.byFH[*h]; ok {
+		return vfAns{true, x[0], x[1]}
+	}
+	return vfAns{true, vG, 0}
+}
+
+// vfAbsRun is the abstraction of the answers of all members of a run: not
+// found if none of them is, the common value if member k answered (v, k) for
+// every k, else G (the members do not answer alike: no model value stands for
+// it).  With runs of one header this is the answer itself.
+func vfAbsRun(a []vfAns) int {
+	nf := 0
+	for _, x := range a {
+		if !x.found {
+			nf++
+		}
+	}
+	if nf == len(a) {
+		return vNF
+	}
+	if nf > 0 {
+		return vG
+	}
+	for k, x := range a {
+		if x.v != a[0].v || x.v < 0 || x.j != k {
+			return vG
+		}
+	}
+	return a[0].v
+}
+
+// absSeq abstracts a sequence of per-real-height answers starting at height 0.
+func (e *vfEnv) absSeq(a []vfAns) []int {
+	if len(a) == 0 {
+		return []int{}
+	}
+	if (len(a)-1)%e.s != 0 {
+		return []int{vG}
+	}
+	out := []int{vfAbsRun(a[:1])}
+	for k := 1; k < len(a); k += e.s {
+		out = append(out, vfAbsRun(a[k:k+e.s]))
+	}
+	return out
 }
 
 func vfFill(n, v int) []int {
@@ -394,6 +539,108 @@ func vfFill(n, v int) []int {
 		s[i] = v
 	}
 	return s
+}
+
+// vfLocHeights are the heights below start a block locator names (the standard
+// algorithm: ten single steps, then doubling steps, genesis last).
+func vfLocHeights(start int) []int {
+	var hs []int
+	h, dec, n := start, 1, 1
+	for h > 0 && n < wire.MaxBlockLocatorsPerMsg {
+		if n > 10 {
+			dec *= 2
+		}
+		if dec > h {
+			h = 0
+		} else {
+			h -= dec
+		}
+		hs = append(hs, h)
+		n++
+	}
+	return hs
+}
+
+// locIDs projects a locator hash by hash (runs of one header).
+func (e *vfEnv) locIDs(loc []*chainhash.Hash) []int {
+	out := make([]int, len(loc))
+	for i, h := range loc {
+		if x, ok := e.u.byBH[*h]; ok {
+			out[i] = x[0]
+		} else {
+			out[i] = vG
+		}
+	}
+	return out
+}
+
+// absLoc abstracts a locator that starts at real height start (known = the
+// index has the first hash) to run level: the id of its first hash followed by
+// the ids stored below the start's model height, provided every hash of the
+// locator is the header the by-height reads return at the height the locator
+// algorithm names; G otherwise.
+func (e *vfEnv) absLoc(loc []*chainhash.Hash, known bool, start int, byH []int) []int {
+	if e.s == 1 {
+		return e.locIDs(loc)
+	}
+	if len(loc) == 0 {
+		return []int{}
+	}
+	x0 := vG
+	if x, ok := e.u.byBH[*loc[0]]; ok {
+		x0 = x[0]
+	}
+	if !known || start == 0 {
+		if len(loc) == 1 {
+			return []int{x0}
+		}
+		return []int{vG}
+	}
+	hs := vfLocHeights(start)
+	if len(loc)-1 != len(hs) {
+		return []int{vG}
+	}
+	for k, r := range hs {
+		x, ok := e.u.byBH[*loc[k+1]]
+		m, pj := e.posOf(r)
+		if !ok || x[1] != pj || m >= len(byH) || byH[m] != x[0] {
+			return []int{vG}
+		}
+	}
+	m0, _ := e.posOf(start)
+	out := []int{x0}
+	for m := m0 - 1; m >= 0; m-- {
+		if m >= len(byH) {
+			return []int{vG}
+		}
+		out = append(out, byH[m])
+	}
+	return out
+}
+
+// locMembers: the members of a run whose locators are read (all of them for
+// runs of one header; first, last and the ones around the 2000th for runs).
+func (e *vfEnv) locMembers(id int) []int {
+	n := e.sz(id)
+	var ms []int
+	for _, j := range []int{0, 1999, 2000, n - 1} {
+		if j >= 0 && j < n && (len(ms) == 0 || ms[len(ms)-1] < j) {
+			ms = append(ms, j)
+		}
+	}
+	return ms
+}
+
+func vfSameInts(a, b []int) bool {
+	if len(a) != len(b) {
+		return false
+	}
+	for i := range a {
+		if a[i] != b[i] {
+			return false
+		}
+	}
+	return true
 }
 
 func (e *vfEnv) observe() vfObs {
@@ -417,69 +664,77 @@ func (e *vfEnv) observe() vfObs {
 	if err != nil {
 		o.B.Tip = []int{vERR, vERR}
 	} else {
-		o.B.Tip = []int{e.idOfHeader(tipHdr), int(tipH)}
+		// the tip of a list of runs is the LAST header of a run, at the last
+		// height of a run
+		idp, hp := vG, vG
+		if x, ok := e.u.byBH[tipHdr.BlockHash()]; ok && x[1] == e.sz(x[0])-1 {
+			idp = x[0]
+		}
+		if m, pj := e.posOf(int(tipH)); pj == e.runLen(m)-1 {
+			hp = m
+		}
+		o.B.Tip = []int{idp, hp}
 	}
 	o.B.ByH = make([]int, e.h)
-	for h := 0; h < e.h; h++ {
-		hd, err := e.b.FetchHeaderByHeight(uint32(h))
-		if err != nil {
-			o.B.ByH[h] = vNF
-		} else {
-			o.B.ByH[h] = e.idOfHeader(hd)
+	for m := 0; m < e.h; m++ {
+		a := make([]vfAns, e.runLen(m))
+		for j := range a {
+			if hd, err := e.b.FetchHeaderByHeight(uint32(e.realH(m, j))); err == nil {
+				a[j] = e.ansB(hd)
+			}
 		}
+		o.B.ByH[m] = vfAbsRun(a)
 	}
+	// hash lookups of EVERY real hash of the universe
 	o.B.HOf = make([]int, e.n)
 	o.B.ByHash = make([]int, e.n)
 	for i := 0; i < e.n; i++ {
-		ht, err := e.b.HeightFromHash(&e.hash[i])
-		if err != nil {
-			o.B.HOf[i] = vNF
-		} else {
-			o.B.HOf[i] = int(ht)
+		ah := make([]vfAns, e.sz(i))
+		ab := make([]vfAns, e.sz(i))
+		for j := range ah {
+			if ht, err := e.b.HeightFromHash(&e.u.hash[i][j]); err == nil {
+				m, pj := e.posOf(int(ht))
+				ah[j] = vfAns{true, m, pj}
+			}
+			if hd, _, err := e.b.FetchHeader(&e.u.hash[i][j]); err == nil {
+				ab[j] = e.ansB(hd)
+			}
 		}
-		hd, _, err := e.b.FetchHeader(&e.hash[i])
-		if err != nil {
-			o.B.ByHash[i] = vNF
-		} else {
-			o.B.ByHash[i] = e.idOfHeader(hd)
-		}
+		o.B.HOf[i] = vfAbsRun(ah)
+		o.B.ByHash[i] = vfAbsRun(ab)
 	}
 	o.B.Anc = []int{vERR}
 	if err == nil && tipHdr != nil {
 		th := tipHdr.BlockHash()
 		if hs, start, err := e.b.FetchHeaderAncestors(tipH, &th); err == nil && start == 0 {
-			o.B.Anc = make([]int, len(hs))
+			a := make([]vfAns, len(hs))
 			for i := range hs {
-				o.B.Anc[i] = e.idOfHeader(&hs[i])
+				a[i] = e.ansB(&hs[i])
 			}
+			o.B.Anc = e.absSeq(a)
 		}
 	}
 	if tipHdr == nil {
 		o.B.Anc = []int{vERR}
 	}
 	o.B.Loc = []int{vERR}
-	if loc, err := e.b.LatestBlockLocator(); err == nil {
-		o.B.Loc = make([]int, len(loc))
-		for i, h := range loc {
-			if id, ok := e.byBH[*h]; ok {
-				o.B.Loc[i] = id
-			} else {
-				o.B.Loc[i] = vG
-			}
-		}
+	if loc, lerr := e.b.LatestBlockLocator(); lerr == nil {
+		o.B.Loc = e.absLoc(loc, err == nil, int(tipH), o.B.ByH)
 	}
 
 	o.B.LocOf = make([][]int, e.n)
 	for i := 0; i < e.n; i++ {
-		o.B.LocOf[i] = []int{vERR}
-		if loc, err := e.b.BlockLocatorFromHash(&e.hash[i]); err == nil {
-			o.B.LocOf[i] = make([]int, len(loc))
-			for k, h := range loc {
-				if id, ok := e.byBH[*h]; ok {
-					o.B.LocOf[i][k] = id
-				} else {
-					o.B.LocOf[i][k] = vG
-				}
+		o.B.LocOf[i] = nil
+		for _, j := range e.locMembers(i) {
+			l := []int{vERR}
+			if loc, lerr := e.b.BlockLocatorFromHash(&e.u.hash[i][j]); lerr == nil {
+				ht, herr := e.b.HeightFromHash(&e.u.hash[i][j])
+				l = e.absLoc(loc, herr == nil, int(ht), o.B.ByH)
+			}
+			if o.B.LocOf[i] == nil {
+				o.B.LocOf[i] = l
+			} else if !vfSameInts(o.B.LocOf[i], l) {
+				o.B.LocOf[i] = []int{vG}
 			}
 		}
 	}
@@ -490,37 +745,48 @@ func (e *vfEnv) observe() vfObs {
 
 	// filter store
 	ftip, ftipH, ferr := e.f.ChainTip()
+	ftipID := -1
 	if ferr != nil {
 		o.F.Tip = []int{vERR, vERR}
 	} else {
-		o.F.Tip = []int{e.idOfFH(ftip), int(ftipH)}
+		idp, hp := vG, vG
+		if x, ok := e.u.byFH[*ftip]; ok && x[1] == e.sz(x[0])-1 {
+			idp, ftipID = x[0], x[0]
+		}
+		if m, pj := e.posOf(int(ftipH)); pj == e.runLen(m)-1 {
+			hp = m
+		}
+		o.F.Tip = []int{idp, hp}
 	}
 	o.F.ByH = make([]int, e.h)
-	for h := 0; h < e.h; h++ {
-		fh, err := e.f.FetchHeaderByHeight(uint32(h))
-		if err != nil {
-			o.F.ByH[h] = vNF
-		} else {
-			o.F.ByH[h] = e.idOfFH(fh)
+	for m := 0; m < e.h; m++ {
+		a := make([]vfAns, e.runLen(m))
+		for j := range a {
+			if fh, err := e.f.FetchHeaderByHeight(uint32(e.realH(m, j))); err == nil {
+				a[j] = e.ansF(fh)
+			}
 		}
+		o.F.ByH[m] = vfAbsRun(a)
 	}
 	o.F.ByHash = make([]int, e.n)
 	for i := 0; i < e.n; i++ {
-		fh, err := e.f.FetchHeader(&e.hash[i])
-		if err != nil {
-			o.F.ByHash[i] = vNF
-		} else {
-			o.F.ByHash[i] = e.idOfFH(fh)
+		a := make([]vfAns, e.sz(i))
+		for j := range a {
+			if fh, err := e.f.FetchHeader(&e.u.hash[i][j]); err == nil {
+				a[j] = e.ansF(fh)
+			}
 		}
+		o.F.ByHash[i] = vfAbsRun(a)
 	}
 	o.F.Anc = []int{vERR}
-	if ferr == nil && o.F.Tip[0] >= 0 {
-		stop := e.hash[o.F.Tip[0]]
+	if ferr == nil && ftipID >= 0 {
+		stop := e.u.hash[ftipID][e.sz(ftipID)-1]
 		if hs, start, err := e.f.FetchHeaderAncestors(ftipH, &stop); err == nil && start == 0 {
-			o.F.Anc = make([]int, len(hs))
+			a := make([]vfAns, len(hs))
 			for i := range hs {
-				o.F.Anc[i] = e.idOfFH(&hs[i])
+				a[i] = e.ansF(&hs[i])
 			}
+			o.F.Anc = e.absSeq(a)
 		}
 	}
 	return o
@@ -566,45 +832,61 @@ func (e *vfEnv) exec(a vfAct) (vfAct, []vfStepOut) {
 	}
 	var extra []vfStepOut
 	out := a
+	out.Nc = 0
 	switch a.Op {
 	case "AppendB":
-		hs := make([]BlockHeader, len(a.Batch))
-		for j, id := range a.Batch {
-			hs[j] = BlockHeader{BlockHeader: e.hdr[id], Height: uint32(len(e.absB) + j)}
+		// ONE WriteHeaders call with every real header of every id of the batch
+		var hs []BlockHeader
+		base := e.realLen(len(e.absB))
+		for _, id := range a.Batch {
+			for j := 0; j < e.sz(id); j++ {
+				hs = append(hs, BlockHeader{BlockHeader: e.u.hdr[id][j], Height: uint32(base + len(hs))})
+			}
 		}
 		out.Res = e.call(kind, a.Sn, func() error { return e.b.WriteHeaders(hs...) })
+		out.Nc = e.plan.commits
 		if out.Res == "ok" {
 			e.absB = append(e.absB, a.Batch...)
 		}
 	case "AppendF":
-		hs := make([]FilterHeader, len(a.Batch))
-		for j, id := range a.Batch {
-			hs[j] = FilterHeader{HeaderHash: e.hash[id], FilterHash: e.fh[id], Height: uint32(len(e.absF) + j)}
+		var hs []FilterHeader
+		base := e.realLen(len(e.absF))
+		for _, id := range a.Batch {
+			for j := 0; j < e.sz(id); j++ {
+				hs = append(hs, FilterHeader{HeaderHash: e.u.hash[id][j], FilterHash: e.u.fh[id][j],
+					Height: uint32(base + len(hs))})
+			}
 		}
 		out.Res = e.call(kind, a.Sn, func() error { return e.f.WriteHeaders(hs...) })
+		out.Nc = e.plan.commits
 		if out.Res == "ok" {
 			e.absF = append(e.absF, a.Batch...)
 		}
 	case "RollbackB":
 		out.Res = e.call(kind, a.Sn, func() error {
-			_, err := e.b.RollbackBlockHeaders(uint32(a.N))
+			_, err := e.b.RollbackBlockHeaders(uint32(a.N * e.s))
 			return err
 		})
+		out.Nc = e.plan.commits
 		if out.Res == "ok" && a.N <= len(e.absB) {
 			e.absB = e.absB[:len(e.absB)-a.N]
 		}
 	case "RollbackF":
+		if e.s != 1 {
+			panic("RollbackF removes one real filter header: not a step of a model with Scale > 1")
+		}
 		var newTip chainhash.Hash
 		if len(e.absF) >= 2 && len(e.absB) >= len(e.absF)-1 {
 			id := e.absB[len(e.absF)-2]
 			if id >= 0 && id < e.n {
-				newTip = e.hash[id]
+				newTip = e.u.hash[id][0]
 			}
 		}
 		out.Res = e.call(kind, a.Sn, func() error {
 			_, err := e.f.RollbackLastBlock(&newTip)
 			return err
 		})
+		out.Nc = e.plan.commits
 		if out.Res == "ok" && len(e.absF) > 0 {
 			e.absF = e.absF[:len(e.absF)-1]
 		}
@@ -654,8 +936,11 @@ func vfRunPath(tmpl string, p vfPathIn, scratch string) (out vfPathOut) {
 		}
 	}
 	e := &vfEnv{dir: dir, plan: &vfPlan{}, n: len(p.InitObs.B.HOf), h: len(p.InitObs.B.ByH),
-		absB: []int{0}, absF: []int{0}}
-	e.mkIDs()
+		absB: []int{0}, absF: []int{0}, s: 1}
+	if len(p.Steps) > 0 && p.Steps[0].Act.Sc > 1 {
+		e.s = p.Steps[0].Act.Sc
+	}
+	e.u = vfUniverse(e.n, e.s)
 	defer e.closeAll()
 	defer func() {
 		if r := recover(); r != nil {
